@@ -478,7 +478,7 @@ theorem c11_hex_roundtrip (b : Bytes) (h : b.length = 32) : hexToByte32 (toHex32
   simp [hexToByte32, hexToFixedSizeBytes, toHex32, encodeHex_length, h, decodeHex_encodeHex]
 
 /-- `HexToByte32(s) = b` implies `s` has 64 characters, `b` has 32 bytes and `b.ToHex()` is `s` (lower-cased). -/
-theorem c11_hex_roundtrip' (s : GoStr) (b : Bytes) (h : hexToByte32 s = .ok b) :
+theorem c11_hex_decode_encode (s : GoStr) (b : Bytes) (h : hexToByte32 s = .ok b) :
     s.length = 64 ∧ b.length = 32 ∧ toHex32 b = lowerHex s := by
   unfold hexToByte32 hexToFixedSizeBytes at h
   split at h; · cases h
